@@ -41,6 +41,81 @@ fn verif_replay() {
     let path = match std::env::var("VERIF_REPLAY") { Ok(p) => p, Err(_) => return };
     let case: serde_json::Value = serde_json::from_str(&std::fs::read_to_string(path).unwrap()).unwrap();
     let a = case["args"].clone();
+    if case["driver"].as_str() == Some("quic_two_sessions") {
+        // two UDP sessions share one real QUIC connection (datagram channel): each sends `frames` frames of `frame_len` bytes
+        // (many fragments each), filled with its own byte -- first one after the other (control: nothing may be lost then), then
+        // both at the same time from two tasks of a multi-threaded runtime.  The receiving end is the real quic_frames_thread with the
+        // real per-connection reassembly.  Every frame must arrive once, whole, at the session it was sent on.
+        let frames = a["frames"].as_u64().unwrap_or(40) as usize;
+        let frame_len = a["frame_len"].as_u64().unwrap_or(30000) as usize;
+        let dir = std::env::temp_dir().join(format!("verif-quic-s-{}", std::process::id()));
+        std::fs::create_dir_all(&dir).unwrap();
+        let (crt, key) = (dir.join("leaf.pem"), dir.join("leaf.key"));
+        std::fs::write(&crt, LEAF_PEM).unwrap();
+        std::fs::write(&key, LEAF_KEY).unwrap();
+        let rt = tokio::runtime::Builder::new_multi_thread().worker_threads(4).enable_all().build().unwrap();
+        let out = rt.block_on(async move {
+            let mut tls: TlsServerConfig = serde_yaml::from_str(&format!("cert: {}\nkey: {}\n", crt.display(), key.display())).unwrap();
+            tls.init().unwrap();
+            let server = quinn::Endpoint::server(create_quic_server(&tls).unwrap(), "127.0.0.1:0".parse().unwrap()).unwrap();
+            let addr = server.local_addr().unwrap();
+            let ctls: TlsClientConfig = serde_yaml::from_str("insecure: true\n").unwrap();
+            let mut client = quinn::Endpoint::client("127.0.0.1:0".parse().unwrap()).unwrap();
+            client.set_default_client_config(create_quic_client(&ctls, false).unwrap());
+            let accept = tokio::spawn(async move { server.accept().await.unwrap().await.unwrap() });
+            let cconn = client.connect(addr, "localhost").unwrap().await.unwrap();
+            let sconn = accept.await.unwrap();
+            // receiving end: the per-connection session table + reassembly thread, one reader per session
+            let rsessions: QuicFrameSessions = Default::default();
+            let (mut r1, _w1) = create_quic_frames(sconn.clone(), 1, rsessions.clone()).await;
+            let (mut r2, _w2) = create_quic_frames(sconn.clone(), 2, rsessions.clone()).await;
+            tokio::spawn(quic_frames_thread("verif".into(), rsessions.clone(), sconn.clone()));
+            // sending end: one writer per session on the shared connection
+            let ssessions: QuicFrameSessions = Default::default();
+            let (_x1, mut w1) = create_quic_frames(cconn.clone(), 1, ssessions.clone()).await;
+            let (_x2, mut w2) = create_quic_frames(cconn.clone(), 2, ssessions.clone()).await;
+            let stats = Arc::new(std::sync::Mutex::new((0usize, 0usize, 0usize, 0usize)));    // (got1, got2, corrupted, misdelivered)
+            let mk_reader = |mut r: Box<dyn FrameReader>, fill: u8, other: u8, which: usize, stats: Arc<std::sync::Mutex<(usize, usize, usize, usize)>>| async move {
+                while let Ok(Some(f)) = r.read().await {
+                    let mut s = stats.lock().unwrap();
+                    let body = f.body();
+                    if body.iter().all(|b| *b == fill) && body.len() == frame_len { if which == 1 { s.0 += 1 } else { s.1 += 1 } }
+                    else if body.iter().all(|b| *b == other) { s.3 += 1 } else { s.2 += 1 }
+                }
+            };
+            let h1 = tokio::spawn(mk_reader(r1, 0xA1, 0xB2, 1, stats.clone()));
+            let h2 = tokio::spawn(mk_reader(r2, 0xB2, 0xA1, 2, stats.clone()));
+            let dst: crate::context::TargetAddress = "10.0.0.1:53".parse().unwrap();
+            let send = |mut w: Box<dyn FrameWriter>, fill: u8, n: usize, dst: crate::context::TargetAddress| async move {
+                for _ in 0..n {
+                    let mut f = Frame::from_body(bytes::Bytes::from(vec![fill; frame_len]));
+                    f.addr = Some(dst.clone());
+                    let _ = w.write(f).await;
+                    tokio::time::sleep(std::time::Duration::from_millis(3)).await;
+                }
+                w
+            };
+            // control: one session after the other
+            w1 = send(w1, 0xA1, frames / 4, dst.clone()).await;
+            w2 = send(w2, 0xB2, frames / 4, dst.clone()).await;
+            tokio::time::sleep(std::time::Duration::from_millis(500)).await;
+            let control = *stats.lock().unwrap();
+            let control_clean = control.0 == frames / 4 && control.1 == frames / 4 && control.2 == 0 && control.3 == 0;
+            // both at once
+            let a1 = tokio::spawn(send(w1, 0xA1, frames, dst.clone()));
+            let a2 = tokio::spawn(send(w2, 0xB2, frames, dst.clone()));
+            let _ = a1.await; let _ = a2.await;
+            tokio::time::sleep(std::time::Duration::from_millis(1500)).await;
+            h1.abort(); h2.abort();
+            let fin = *stats.lock().unwrap();
+            let (g1, g2) = (fin.0 - control.0, fin.1 - control.1);
+            serde_json::json!({"panicked": false, "sequential_control_clean": control_clean, "sent_per_session": frames, "received_session_1": g1, "received_session_2": g2,
+                               "lost": 2 * frames - g1 - g2 - (fin.2 - control.2) - (fin.3 - control.3), "corrupted": fin.2 - control.2, "delivered_to_the_other_session": fin.3 - control.3})
+        });
+        let _ = std::fs::remove_dir_all(&dir);
+        println!("VERIF-OUTCOME {}", out);
+        return;
+    }
     if case["driver"].as_str() == Some("quic_server_cert_verification") {
         // the QUIC connector's side: a client configuration built by create_quic_client with / without `insecure` and with no ca, the
         // test CA, or another CA file (the leaf itself: not the issuer) dials a server whose certificate was issued by the test CA
